@@ -179,7 +179,7 @@ theorem fusion_steps {jl : String} {c : Int} {Wt : List String} (hjl : ¬ jl ∈
             | some s2' =>
               simp only [e4, Option.bind_some] at hp
               have a2' := steps_alias (colSteps_cl h2 cur) a1 e4
-              have ih := fusion_steps hjl h12 n (cur + 1) s2' t a2' (by simp [steps_append, hp, h])
+              have ih := fusion_steps (c := c) hjl h12 n (cur + 1) s2' t a2' (by simp [steps_append, hp, h])
               simp [loopSteps, colSteps_append, steps_append, e1, e4, ih]
 
 end LokiModel.C37
